@@ -241,6 +241,10 @@ def replay(ctx, path):
         print("replay: trace accepted (no divergence)")
 
 
+GEN_CAP_QUICK = 20000
+GEN_CAP_THOROUGH = 120000
+
+
 def run_plan(ctx, plan, rule, assumptions=(), reference=False, level="model_checking"):
     """Generic runner of a store-level property: plan = {mc: [...], gen: [...], drv: [...]}.
       mc : (name, cfg, props, kwargs)            design-level model checking of QueueMC
@@ -269,6 +273,14 @@ def run_plan(ctx, plan, rule, assumptions=(), reference=False, level="model_chec
         lap("GEN %s (%d edges, %d schedules)" % (name, edges, len(scheds)))
         if not scheds:
             raise vf.Infra("generator %s produced no schedules" % name)
+        cap = GEN_CAP_QUICK if ctx.quick else GEN_CAP_THOROUGH
+        if len(scheds) > cap:
+            # the executor handles ~500 traces/s: keep the tier inside its time budget with a seeded sample of the edge schedules
+            import random
+            total = len(scheds)
+            scheds = random.Random(ctx.seed).sample(scheds, cap)
+            ctx.notes.append("GEN %s: %d of %d edge schedules executed (seeded sample, cap %d)" % (name, cap, total, cap))
+            ctx.count("gen_schedules_not_executed", total - cap)
         sf = os.path.join(ctx.scratch, "gen-%s.ndjson" % name)
         write_schedules(sf, scheds, cfg, "gen-" + name)
         ctx.count("gen_edges", edges)
